@@ -7,8 +7,7 @@ where the evaluator is wrong for IEEE doubles (findings F1–F4) — plus one re
 statement quantified over EVERY call handler is unprovable (reference equality of two fresh
 tables / functions across an effectful sub-expression, `refEqOK`):
 
-* F1/F2 `numEqOK`   — at every `==`/`~=` whose two sides evaluate to numbers `a`, `b`:
-                      darklua's `(a-b).abs() < ε` gives the same answer as the semantics' `N.eq a b`;
+* (F1/F2 — ε-equality of numbers — is FIXED in /repo: `numEqOK` is gone from `h8`)
 * F3    `concatOK`  — at every `..` that is folded: a number operand is formatted by Rust's `to_string`
                       exactly as by the semantics' `N.toStr` (`%.14g`);
 * F4    `interpOK`  — every interpolated value the evaluator cannot determine is already declared
@@ -20,10 +19,6 @@ namespace DarkluaModel.C08
 open DarkluaModel.Evaluator
 
 variable {N : NumOps}
-
-def numEqOK (E : EvalOps N) : LuaValue N → LuaValue N → Bool
-  | .number a, .number b => E.epsEq a b == N.eq a b
-  | _, _ => true
 
 def isStrOrNum : LuaValue N → Bool
   | .number _ | .string _ => true
@@ -52,7 +47,7 @@ mutual
     | .bin op l r =>
       h8 E l && h8 E r &&
         (match op with
-         | .eq | .ne => numEqOK E (evaluate E l) (evaluate E r) && refEqOK E l r
+         | .eq | .ne => refEqOK E l r
          | .concat => concatOK E (evaluate E l) (evaluate E r)
          | _ => true)
     | .un _ e => h8 E e
